@@ -1,15 +1,16 @@
 package verifsim
 
 import (
-	"hash/fnv"
 	"context"
 	"crypto/ed25519"
 	"crypto/sha256"
 	"encoding/binary"
 	"errors"
 	"fmt"
+	"hash/fnv"
 	"sort"
 	"sync"
+	"testing/synctest"
 	"time"
 
 	"github.com/ipfs/boxo/exchange"
@@ -61,7 +62,7 @@ type simNet struct {
 	// fetchFail[node] = salt (>0) of the injected fetch failures of that node, see GetBlock
 	fetchFail   map[peer.ID]int
 	fetchFailed map[string]bool
-	stats     map[string]int
+	stats       map[string]int
 	// tamper, when set, may rewrite a request before it is handed to the receiver (C12)
 	OnPayload func(kind string, from, to peer.ID, payload []byte)
 	pubsubQ   []pubsubMsg
@@ -159,6 +160,9 @@ func (n *simNet) deliver(p *pendingRPC, answer bool) {
 			p.reply <- err
 		}
 	}()
+	// one delivery at a time: two requests handled at once on the receiver (a document commit and the
+	// collection-level commit of the same write) would race in an order the seed does not decide
+	synctest.Wait()
 }
 
 func (n *simNet) drop(p *pendingRPC) {
